@@ -210,7 +210,13 @@ fn malformed_line(rng: &mut Rng, class: &str, lg: &mut LineGen) -> Vec<u8> {
         "truncated_long_frame" => format!("*8d{:012x};\n", lg.ctr as u64 + 0x4840_d620_0000).into_bytes(),
         _ => {
             let mut v = b"*".to_vec();
-            v.extend(std::iter::repeat(b'g').take(300 + rng.usize_below(1200)));
+            let n = match rng.below(4) {
+                0 => 300 + rng.usize_below(1200),
+                1 => 4000 + rng.usize_below(200), // around 4 KiB
+                2 => 8100 + rng.usize_below(200), // around one BufReader fill
+                _ => 9000 + rng.usize_below(12_000),
+            };
+            v.extend(std::iter::repeat(b'g').take(n));
             v.extend_from_slice(b";\n");
             v
         }
